@@ -182,6 +182,17 @@ pub fn format_inputs() -> Vec<(&'static str, &'static str)> {
         ("%Y-%m-%dT%H:%M:%S.%f? %T?", "2015-02-07T11:22:33 TAI"),
         ("%Y-%m-%d %H:%M:%S %T", "2015-02-07 11:22:33 GPST"),
         ("%d/%m/%Y %H.%M.%S", "07/02/2015 11.22.33"),
+        // exactly MAX_TOKENS = 16 tokens, with inputs that supply 15, 16 and 17 fields
+        ("%Y-%m-%d %H:%M:%S %Y-%m-%d %H:%M:%S %Y-%m-%d %H", "2020-01-02 03:04:05 2020-01-02 03:04:05 2020-01-02 03"),
+        ("%Y-%m-%d %H:%M:%S %Y-%m-%d %H:%M:%S %Y-%m-%d %H", "2020-01-02 03:04:05 2020-01-02 03:04:05 2020-01-02 03 1"),
+        ("%Y-%m-%d %H:%M:%S %Y-%m-%d %H:%M:%S %Y-%m-%d %H", "2020-01-02 03:04:05 2020-01-02 03:04:05 2020-01-02"),
+        ("%Y-%m-%dT%H:%M:%S.%f %T %j %J %b %B %a %A %y", "2015-02-07T11:22:33.5 UTC 038 38.5 Feb February Sat Saturday 15"),
+        // 15 tokens and one more field than tokens
+        ("%Y-%m-%d %H:%M:%S %Y-%m-%d %H:%M:%S %Y-%m-%d", "2020-01-02 03:04:05 2020-01-02 03:04:05 2020-01-02 03"),
+        // fewer fields than tokens, more fields than tokens, short formats
+        ("%Y-%m-%d", "2015-02-07 11:22:33"),
+        ("%Y-%m-%d %H:%M:%S", "2015-02-07"),
+        ("%H:%M", "11:22:33:44:55"),
     ]
 }
 
